@@ -87,7 +87,7 @@ def plugin_register(em):
 
 # ----------------------------------------------------------------------------- generator
 
-P_INVIVO = {"quick": 0.0012, "thorough": 0.002}
+P_INVIVO = {"quick": 0.002, "thorough": 0.003}
 
 
 def gen_knobs(rng, tier):
